@@ -5,8 +5,9 @@ From SVG Require Import RelDistGen.
 Import ListNotations.
 Local Open Scope Z_scope.
 
+(* bits ranges over what a C int shift admits (AV1 itself has order_hint_bits <= 8) *)
 Definition rel_dist_contract (f : Z -> Z -> Z -> Z -> Z) : Prop :=
-  forall en bits a b, 1 <= bits ->
+  forall en bits a b, 1 <= bits <= 31 ->
     (en <> 0 -> let r := f en bits a b in
                 (r - (a - b)) mod 2 ^ bits = 0 /\ - 2 ^ (bits - 1) <= r < 2 ^ (bits - 1)) /\
     (en = 0 -> f en bits a b = 0).
@@ -17,19 +18,31 @@ Definition canonical (en bits a b : Z) : Z := if en =? 0 then 0 else rel_dist bi
 Lemma canonical_ok : rel_dist_contract canonical.
 Proof.
   intros en bits a b Hb. unfold canonical. split.
-  - intros Hen. destruct (Z.eqb_spec en 0) as [E|_]; [contradiction|]. apply rel_dist_spec. exact Hb.
+  - intros Hen. destruct (Z.eqb_spec en 0) as [E|_]; [contradiction|]. apply rel_dist_spec. lia.
   - intros ->. reflexivity.
 Qed.
 
-Lemma contract_ext f : (forall en bits a b, f en bits a b = canonical en bits a b) -> rel_dist_contract f.
+Lemma contract_ext f : (forall en bits a b, 1 <= bits <= 31 -> f en bits a b = canonical en bits a b) -> rel_dist_contract f.
 Proof.
-  intros E en bits a b Hb. rewrite E. apply canonical_ok. exact Hb.
+  intros E en bits a b Hb. rewrite E by exact Hb. apply canonical_ok. exact Hb.
+Qed.
+
+(* the machine form of  1 << (bits - 1)  (count masked to 5 bits, result as a 32-bit int) is 2^(bits-1) in range *)
+Lemma shift_count_ok k : 0 <= k <= 30 -> wrapS 32 (Z.shiftl 1 (Z.land k 31)) = Z.shiftl 1 k.
+Proof.
+  intros Hk. assert (E : Z.land k 31 = k).
+  { change 31 with (Z.ones 5). rewrite Z.land_ones by lia. apply Z.mod_small. change (2 ^ 5) with 32. lia. }
+  rewrite E. apply wrapS_id; [lia|]. rewrite Z.shiftl_1_l.
+  assert (0 < 2 ^ k) by (apply Z.pow_pos_nonneg; lia).
+  assert (2 ^ k <= 2 ^ 30) by (apply Z.pow_le_mono_r; lia).
+  change (2 ^ (32 - 1)) with (2 * 2 ^ 30). lia.
 Qed.
 
 (* Each regenerated copy is shown equal to the canonical shape; the tactic tolerates
    let-bindings, double negations and the order of the enable test. *)
 Ltac copy_is_canonical :=
-  intros en bits a b; unfold canonical, rel_dist; cbv zeta;
+  intros en bits a b Hbits; unfold canonical, rel_dist; cbv zeta;
+  rewrite ?(shift_count_ok (bits - 1)) by lia;
   destruct (Z.eqb_spec en 0) as [->|Hne]; cbn [negb Z.eqb];
   [ reflexivity
   | try (destruct (Z.eqb_spec en 0) as [E0|_]; [contradiction|]); cbn [negb]; try reflexivity; try lia ].
